@@ -77,7 +77,7 @@ def isMarkOrOther (c : Nat) : Bool := inRanges Gen.markOrOther c
 (the segmentation itself is external: `unicode-segmentation`). -/
 def clusterOfPieces (pieces : List Str) : Cluster :=
   pieces.flatMap fun it =>
-    let containsBackslash := it.length == 2 && it.contains 92
+    let containsBackslash := decide (it.length ≥ 2) && it.contains 92
     let containsMark := it.any isMarkOrOther
     if containsBackslash || containsMark then it.map fun c => Grapheme.ofStr [c]
     else [Grapheme.ofStr it]
